@@ -147,7 +147,7 @@ def run_check(prop, tier, seed):
         for nprimes in (inst.get("nprimes", 8), 14, 20):
             try:
                 behs, stats = tlcrun.run_model(inst["module"], cfg_text, nprimes=nprimes,
-                                               timeout=inst.get("timeout", 3000), simulate=sim,
+                                               timeout=inst.get("timeout", 1200 if tier == "quick" else 7200), simulate=sim,
                                                extra_consts=inst.get("consts"))
                 break
             except decode.DecodeError as e:   # magnitudes need more primes: rerun the same model with more
